@@ -11,6 +11,7 @@ import Rbql.Model.Parse
 import Rbql.Model.ParseJs
 import Rbql.Model.Translate
 import Rbql.Model.Cli
+import Rbql.Model.Variables
 import Driver.Codec
 import Driver.EngineOps
 open Rbql Driver
@@ -105,6 +106,9 @@ def encColInfo : ColInfo → String
 
 def encNats (l : List Nat) : String := if l.isEmpty then "!" else ",".intercalate (l.map toString)
 
+def encVarMap (m : VarMap) : String :=
+  if m.isEmpty then "ok ~" else "ok " ++ " ".intercalate (m.map (fun e => s!"{encStr e.1}={encBool e.2.init}:{e.2.index}"))
+
 /-- ops of the query-translation layer (Model/Translate.lean) -/
 def stepTranslate (ws : List String) : Option String :=
   match ws with
@@ -152,6 +156,16 @@ def stepTranslate (ws : List String) : Option String :=
     let f : OutFormat := match fmt with | "csv" => .csv | "tsv" => .tsv | "monocolumn" => .monocolumn | _ => .input
     let r := cliDialects (decStr d) (decP pol) f
     some s!"{encStr r.inDelim} {encP r.inPolicy} {encStr r.outDelim} {encP r.outPolicy}"
+  | ["dictvars", js, pfx, query, names] =>
+    some (encVarMap (parseDictionaryVariables (decBool js) (decStr query) ((decStr pfx).headD 'a') (decList names) []))
+  | ["attrvars", js, pfx, query, names] =>
+    some (match parseAttributeVariables (decBool js) (decStr query) ((decStr pfx).headD 'a') (decList names) [] with
+      | .ok m => encVarMap m
+      | .error _ => "err notfound")
+  | ["directvars", query, names] =>
+    some (match mapVariablesDirectly (decStr query) (decList names) [] with
+      | .ok m => encVarMap m
+      | .error _ => "err badname")
   | ["unquotestr", s] => some (match unquoteString (decStr s) with | some v => "S" ++ encStr v | none => "N")
   | _ => none
 
